@@ -394,6 +394,8 @@ func (c *Checker) CheckSource(sourceName string, source string) (compiler.Compil
 	methodScopesCopy := c.deepCopyMethodScopes(c.runtimeEnv, envCopy)
 	c.methodScopesCopyCache = nil
 	c.constantScopesCopyCache = nil
+	// the compiler of the last valid input knows the local variables that live on the stack of the VM
+	prevCompiler := c.compiler
 
 	c.Filename = sourceName
 	c.methodBodyChecks = nil
@@ -409,6 +411,7 @@ func (c *Checker) CheckSource(sourceName string, source string) (compiler.Compil
 		c.localEnvs = localEnvsCopy
 		c.constantScopes = constantScopesCopy
 		c.methodScopes = methodScopesCopy
+		c.compiler = prevCompiler
 	}
 
 	if compiler == nil {
